@@ -273,6 +273,47 @@ func checkDrainCoversLive(e *Engine, r *Report) {
 				}
 				return false, false
 			}
+			// … and what was retrieved goes into the reply
+			if st == "ContainerStateRunning" {
+				var upd ssa.Value
+				AllInstrs(fn, func(in ssa.Instruction) {
+					if drains(in) {
+						upd = in.(ssa.CallInstruction).Value()
+					}
+				})
+				if upd != nil {
+					got := func(cond ssa.Value) (bool, bool) {
+						if k, v := asm(cond); k {
+							return k, v
+						}
+						return nilnessOf(upd, false)(cond)
+					}
+					replies := func(in ssa.Instruction) bool {
+						call, ok := in.(*ssa.Call)
+						if !ok {
+							return false
+						}
+						bi, ok := call.Common().Value.(*ssa.Builtin)
+						if !ok || bi.Name() != "append" {
+							return false
+						}
+						for _, el := range sliceLiteralElems(call.Common().Args[1]) {
+							if unspill(el) == upd {
+								return true
+							}
+						}
+						return false
+					}
+					p2 := FindPath(PathQuery{Fn: fn, From: upd.(ssa.Instruction), Assume: got, Block: replies, Target: func(x ssa.Instruction) bool {
+						if x == lp.head.Instrs[0] {
+							return true
+						}
+						_, isR := x.(*ssa.Return)
+						return isR
+					}})
+					r.Check("R1:drained-update-is-replied", rule, "an update retrieved from a pending container is appended to the reply", e.InstrPos(upd.(ssa.Instruction)), fn, p2 == nil, e.pathString(p2), true)
+				}
+			}
 			p := lp.skips(asm, drains, true)
 			r.Check("R1:drain-covers-live#"+st, rule, "getPendingUpdates retrieves the pending update of every pending container in state "+st[len("ContainerState"):]+" other than the one being created", e.InstrPos(lp.start), fn, p == nil, e.pathString(p), true)
 		}
